@@ -4,6 +4,7 @@ import (
 	"bytes"
 	cryptorand "crypto/rand"
 	"encoding/hex"
+	"errors"
 	"fmt"
 	"io"
 	"math/big"
@@ -37,6 +38,7 @@ type Case struct {
 	Seed            int64  // value the process-global math/rand is seeded with (reseed kinds)
 	G               int32
 	Password        string
+	Limit           int            `json:",omitempty"` // short-os-source: bytes the OS source delivers before it fails
 	Draws           int            `json:",omitempty"` // many-draws: number of (nonce, new_nonce) pairs drawn in one process
 	StallMs         int            `json:",omitempty"` // stalled-os-source: delay of every read of the OS source
 	SecureRandomLen int            `json:",omitempty"` // srp-distinct: length of the server's secure_random
@@ -167,6 +169,49 @@ func oracle(c *Case) error {
 			for i, name := range []string{"nonce", "new_nonce", "the DH exponent b"} {
 				if p1[i] == p2[i] {
 					return fmt.Errorf("%s is reproducible when the OS random source stalls for %d ms per read: reseeding the process-global math/rand with %d yields the same value twice (%s…)", name, c.StallMs, c.Seed, p1[i][:16])
+				}
+			}
+		case "short-os-source":
+			// fault injection: the OS source delivers c.Limit bytes and then fails. A secret of n bytes cannot be made of
+			// fewer than n OS bytes: whoever asks is refused (error or panic), never handed a value
+			real := cryptorand.Reader
+			defer func() { cryptorand.Reader = real }()
+			pB := ref.LeftPad(ref.DHPrime.Bytes(), 256)
+			ga := new(big.Int).Exp(big.NewInt(3), big.NewInt(c.Seed|1), ref.DHPrime)
+			draws := []struct {
+				name string
+				need int
+				f    func() error
+			}{
+				{"nonce", 16, func() error { tl.RandomInt128(); return nil }},
+				{"new_nonce", 32, func() error { tl.RandomInt256(); return nil }},
+				{"the DH exponent b", 256, func() error { imath.MakeGAB(3, ga, ref.DHPrime); return nil }},
+				{"the SRP ephemeral a", 256, func() error {
+					_, err := telegram.GetInputCheckPassword("password", &telegram.AccountPassword{
+						CurrentAlgo: &telegram.PasswordKdfAlgoSHA256SHA256PBKDF2HMACSHA512iter100000SHA256ModPow{Salt1: []byte{1}, Salt2: []byte{2}, G: 3, P: pB},
+						SRPB:        ref.LeftPad(ga.Bytes(), 256), SRPID: 1})
+					return err
+				}},
+			}
+			for _, d := range draws {
+				if c.Limit >= d.need {
+					continue
+				}
+				cryptorand.Reader = &failingReader{r: real, left: c.Limit}
+				refused := false
+				func() {
+					defer func() {
+						if recover() != nil {
+							refused = true
+						}
+					}()
+					if err := d.f(); err != nil {
+						refused = true
+					}
+				}()
+				cryptorand.Reader = real
+				if !refused {
+					return fmt.Errorf("%s was produced although the OS random source delivered only %d of the %d bytes it takes and then failed: the rest comes from somewhere else", d.name, c.Limit, d.need)
 				}
 			}
 		case "many-draws":
@@ -367,6 +412,23 @@ func TestC19(t *testing.T) {
 	if t.Failed() {
 		return
 	}
+	t.Run("short-os-source", func(t *testing.T) {
+		nsh := hx.NShards()
+		for i, limit := range []int{0, 1, 8, 15, 31, 128, 255} {
+			if i%nsh != run.Shard%nsh {
+				continue
+			}
+			c := &Case{Kind: "short-os-source", Limit: limit, Seed: int64(run.Seed) + int64(i)}
+			run.Case(true, evid.Hash(c.Kind, c.Limit), "kind:"+c.Kind)
+			if err := oracle(c); err != nil {
+				p := run.ViolationNamed(fmt.Sprintf("short-os-%d", limit), c, err.Error())
+				t.Errorf("violation (replay %s): %v", p, err)
+			}
+		}
+	})
+	if t.Failed() {
+		return
+	}
 	t.Run("many-draws", func(t *testing.T) {
 		c := &Case{Kind: "many-draws", Draws: run.Pick(700, 20000), Seed: int64(run.Seed)}
 		run.Case(true, evid.Hash(c.Kind, c.Draws, run.Shard), "kind:"+c.Kind)
@@ -550,4 +612,25 @@ func (d *detSource) Bytes(label string, n int) []byte {
 func (d *detSource) Int(label string, n int) int {
 	d.seed = d.seed*6364136223846793005 + 1442695040888963407
 	return int(hx.DetU64(d.seed^evid.Hash(label)) % uint64(n))
+}
+
+// failingReader hands out `left` real bytes and then fails.
+type failingReader struct {
+	r    io.Reader
+	left int
+}
+
+func (f *failingReader) Read(p []byte) (int, error) {
+	if f.left <= 0 {
+		return 0, errors.New("entropy source: interrupted")
+	}
+	if len(p) > f.left {
+		p = p[:f.left]
+	}
+	n, _ := f.r.Read(p)
+	f.left -= n
+	if f.left <= 0 {
+		return n, errors.New("entropy source: interrupted")
+	}
+	return n, nil
 }
